@@ -7,4 +7,6 @@ cp -r /repo/abacusnbody "$D/"; cp -r /repo/abacusutils.egg-info "$D/" 2>/dev/nul
 patch -s -p1 -d "$D" < "$1"
 shift
 P=$1; T=${2:-quick}
-VV_REPO="$D" /verif/vv check "$P" --tier "$T" 2>&1 | grep -E "VIOLATION|UNDECIDED|RESULT|KNOWN|Traceback|Error" | cut -c1-260 | sed "s#$D#<scratch>#g" | head -${LINES_MAX:-14}
+VV_REPO="$D" /verif/vv check "$P" --tier "$T" > "$D/out.txt" 2>&1 || true
+grep -E "VIOLATION|UNDECIDED|KNOWN|Traceback|Error" "$D/out.txt" | cut -c1-260 | sed "s#$D#<scratch>#g" | head -${LINES_MAX:-14}
+grep -E "^RESULT" "$D/out.txt"
